@@ -86,6 +86,11 @@ type frame struct {
 	retIdx    int
 }
 
+type closureSite struct {
+	mc    *ssa.MakeClosure
+	frame int
+}
+
 type boundAtom struct {
 	atom Atom
 	neg  bool
@@ -117,6 +122,8 @@ type Walker struct {
 	capt       map[*ssa.Alloc]bool
 	allocNames map[*ssa.Function]map[string]int
 	Merged     int
+	// where the closures seen so far were made (for calling one back from a new helper)
+	closureSites map[string]closureSite
 }
 
 func (st *wstate) clone() *wstate {
@@ -422,9 +429,22 @@ func (w *Walker) canonD(st *wstate, fr *frame, v ssa.Value, d int) string {
 	case *ssa.UnOp:
 		switch x.Op {
 		case token.MUL:
+			if ia, ok := x.X.(*ssa.IndexAddr); ok {
+				// an element of a package-level array that nothing ever changes
+				if g, ok := ia.X.(*ssa.Global); ok {
+					if t := w.P.globalTable(g); t != nil && t.kind == "array" {
+						ix := w.canonD(st, fr, ia.Index, d+1)
+						for _, e := range t.entries {
+							if e.key == ix {
+								return e.val
+							}
+						}
+					}
+				}
+			}
 			if g, ok := x.X.(*ssa.Global); ok {
 				// a package-level slice literal that nothing ever changes: its elements
-				if t := w.P.globalTable(g); t != nil && t.kind == "slice" {
+				if t := w.P.globalTable(g); t != nil && (t.kind == "slice" || t.kind == "array") {
 					var vals []string
 					for _, e := range t.entries {
 						vals = append(vals, e.val)
@@ -570,7 +590,17 @@ func (w *Walker) canonD(st *wstate, fr *frame, v ssa.Value, d int) string {
 		}
 		return "&" + base + "[" + w.canonD(st, fr, x.Index, d+1) + "]"
 	case *ssa.Index:
-		return w.canonD(st, fr, x.X, d+1) + "[" + w.canonD(st, fr, x.Index, d+1) + "]"
+		base, ix := w.canonD(st, fr, x.X, d+1), w.canonD(st, fr, x.Index, d+1)
+		if strings.HasPrefix(base, "[") && strings.HasSuffix(base, "]") {
+			// an element of a known list (a constant table)
+			if k, ok := constInt(ix); ok {
+				elems := splitTop(base[1 : len(base)-1])
+				if k >= 0 && int(k) < len(elems) {
+					return strings.TrimSpace(elems[k])
+				}
+			}
+		}
+		return base + "[" + ix + "]"
 	case *ssa.Slice:
 		part := func(v ssa.Value) string {
 			if v == nil {
@@ -619,6 +649,10 @@ func (w *Walker) canonD(st *wstate, fr *frame, v ssa.Value, d int) string {
 		}
 		return "conv:" + typeShort(x.Type().Underlying()) + "(" + in + ")"
 	case *ssa.MakeClosure:
+		if w.closureSites == nil {
+			w.closureSites = map[string]closureSite{}
+		}
+		w.closureSites["closure:"+calleeName(x.Fn.(*ssa.Function))] = closureSite{mc: x, frame: fr.id}
 		if len(envMethods) > 0 {
 			// a method value standing for a known closure (resolveCallbacks)
 			if m := callbackTarget(w.P.SSA, x); m != nil && envMethods[m] != nil {
@@ -1169,11 +1203,20 @@ func (w *Walker) block(st *wstate, b *ssa.BasicBlock, pred *ssa.BasicBlock) {
 // the constants and variables they were built from) instead of once with an
 // unknown index.
 func unrollBound(b *ssa.BasicBlock) int {
-	if len(b.Instrs) < 2 || len(b.Preds) != 2 {
+	if len(b.Instrs) < 2 || len(b.Preds) < 2 {
 		return 0
 	}
-	phi, ok := b.Instrs[0].(*ssa.Phi)
-	if !ok || phi.Comment != "rangeindex" {
+	var phi *ssa.Phi
+	for _, in := range b.Instrs {
+		p, ok := in.(*ssa.Phi)
+		if !ok {
+			break
+		}
+		if p.Comment == "rangeindex" {
+			phi = p
+		}
+	}
+	if phi == nil {
 		return 0
 	}
 	iff, ok := b.Instrs[len(b.Instrs)-1].(*ssa.If)
@@ -1182,6 +1225,17 @@ func unrollBound(b *ssa.BasicBlock) int {
 	}
 	cmp, ok := iff.Cond.(*ssa.BinOp)
 	if !ok || cmp.Op != token.LSS {
+		return 0
+	}
+	// the running index (phi + 1) against the length
+	if add, ok := cmp.X.(*ssa.BinOp); !ok || add.Op != token.ADD || add.X != ssa.Value(phi) {
+		return 0
+	}
+	// a range over a package-level array that nothing changes: the constant length
+	if k, ok := cmp.Y.(*ssa.Const); ok && k.Value != nil {
+		if n := k.Int64(); n >= 1 && n <= 6 && rangesConstArray(b, phi) {
+			return int(n)
+		}
 		return 0
 	}
 	call, ok := cmp.Y.(*ssa.Call)
@@ -1204,6 +1258,44 @@ func unrollBound(b *ssa.BasicBlock) int {
 	}
 	_ = cnt
 	return int(n)
+}
+
+// rangesConstArray: the loop headed by b indexes, with its running index, a
+// package-level array that is a constant table (consttab.go).
+func rangesConstArray(b *ssa.BasicBlock, phi *ssa.Phi) bool {
+	for _, blk := range b.Parent().Blocks {
+		for _, in := range blk.Instrs {
+			if ix, ok := in.(*ssa.Index); ok {
+				// the array copied out of the variable before the loop
+				add, ok := ix.Index.(*ssa.BinOp)
+				if !ok || add.X != ssa.Value(phi) {
+					continue
+				}
+				if ld, ok := ix.X.(*ssa.UnOp); ok && ld.Op == token.MUL {
+					if g, ok := ld.X.(*ssa.Global); ok && curProgram != nil {
+						if t := curProgram.globalTable(g); t != nil && t.kind == "array" {
+							return true
+						}
+					}
+				}
+				continue
+			}
+			ia, ok := in.(*ssa.IndexAddr)
+			if !ok {
+				continue
+			}
+			add, ok := ia.Index.(*ssa.BinOp)
+			if !ok || add.X != ssa.Value(phi) {
+				continue
+			}
+			if g, ok := ia.X.(*ssa.Global); ok && curProgram != nil {
+				if t := curProgram.globalTable(g); t != nil && t.kind == "array" {
+					return true
+				}
+			}
+		}
+	}
+	return false
 }
 
 // literalLen: the length of a full slice of a local array (a slice literal).
@@ -1602,7 +1694,25 @@ func (w *Walker) call(st *wstate, b *ssa.BasicBlock, idx int, in *ssa.Call) bool
 	}
 	res := w.canon(st, fr, in)
 	depth := len(st.frames)
-	inline := fn != nil && fn.Blocks != nil && (w.Cfg.Inline != nil && w.Cfg.Inline(fn, depth) || unknownHelper(fn, depth))
+	// a new helper calling back the closure it was handed (withCursor(txn, dbi,
+	// func(c) error {...})): the closure's body runs there, with the variables
+	// it captured where it was made
+	var cbSite *closureSite
+	if fn == nil && len(st.frames) > 1 && unknownHelper(fr.fn, 0) && in.Call.StaticCallee() == nil && !in.Call.IsInvoke() {
+		v := w.canon(st, fr, in.Call.Value)
+		if site, ok := w.closureSites[v]; ok && strings.HasPrefix(v, "closure:") {
+			if cf, ok := site.mc.Fn.(*ssa.Function); ok && cf.Blocks != nil && len(cf.Blocks) <= 80 {
+				for _, f := range st.frames {
+					if f.id == site.frame {
+						s := site
+						cbSite = &s
+						fn = cf
+					}
+				}
+			}
+		}
+	}
+	inline := fn != nil && fn.Blocks != nil && (w.Cfg.Inline != nil && w.Cfg.Inline(fn, depth) || unknownHelper(fn, depth) || cbSite != nil)
 	if inline {
 		for _, f := range st.frames {
 			if f.fn == fn {
@@ -1709,9 +1819,53 @@ func (w *Walker) call(st *wstate, b *ssa.BasicBlock, idx int, in *ssa.Call) bool
 			}
 		}
 	}
+	if cbSite != nil {
+		for _, f := range st.frames {
+			if f.id != cbSite.frame {
+				continue
+			}
+			for i, fv := range fn.FreeVars {
+				if i < len(cbSite.mc.Bindings) {
+					nf.env[fv] = w.canon(st, f, cbSite.mc.Bindings[i])
+				}
+			}
+		}
+	}
 	st.frames = append(st.frames, nf)
 	w.block(st, fn.Blocks[0], nil)
 	return true
+}
+
+// localMapTable: the entries of a map literal held in a local that is never
+// updated after its construction (all its uses are the literal's own updates,
+// lookups and len).
+func (w *Walker) localMapTable(st *wstate, fr *frame, mm *ssa.MakeMap) *constTab {
+	if mm.Referrers() == nil {
+		return nil
+	}
+	tab := &constTab{kind: "map"}
+	for _, r := range *mm.Referrers() {
+		switch u := r.(type) {
+		case *ssa.MapUpdate:
+			if u.Map != ssa.Value(mm) || u.Block() != mm.Block() {
+				return nil // updated elsewhere than in the literal
+			}
+			k, ok := constCanon(u.Key)
+			if !ok {
+				return nil
+			}
+			tab.entries = append(tab.entries, constEntry{k, w.canon(st, fr, u.Value)})
+		case *ssa.Lookup, *ssa.DebugRef:
+		case *ssa.Call:
+			if b, ok := u.Call.Value.(*ssa.Builtin); !ok || b.Name() != "len" {
+				return nil
+			}
+		default:
+			return nil
+		}
+	}
+	sort.SliceStable(tab.entries, func(i, j int) bool { return tab.entries[i].key < tab.entries[j].key })
+	return tab
 }
 
 // lookupConstTable: a lookup in a constant package-level map (see consttab.go)
@@ -1719,19 +1873,25 @@ func (w *Walker) call(st *wstate, b *ssa.BasicBlock, idx int, in *ssa.Call) bool
 // pinned to that entry's key and the result bound to its value, and once for
 // "no such entry". Returns false when in is not such a lookup.
 func (w *Walker) lookupConstTable(st *wstate, b *ssa.BasicBlock, idx int, in *ssa.Lookup) bool {
-	ld, ok := in.X.(*ssa.UnOp)
-	if !ok || ld.Op != token.MUL {
-		return false
+	fr := st.top()
+	var tab *constTab
+	if mm, ok := in.X.(*ssa.MakeMap); ok {
+		// a local table: a map literal with constant keys that is only looked up
+		tab = w.localMapTable(st, fr, mm)
+	} else {
+		ld, ok := in.X.(*ssa.UnOp)
+		if !ok || ld.Op != token.MUL {
+			return false
+		}
+		g, ok := ld.X.(*ssa.Global)
+		if !ok {
+			return false
+		}
+		tab = w.P.globalTable(g)
 	}
-	g, ok := ld.X.(*ssa.Global)
-	if !ok {
-		return false
-	}
-	tab := w.P.globalTable(g)
 	if tab == nil || tab.kind != "map" || len(tab.entries) == 0 || len(tab.entries) > 16 {
 		return false
 	}
-	fr := st.top()
 	key := w.canon(st, fr, in.Index)
 	var ex0, ex1 ssa.Value
 	if in.CommaOk && in.Referrers() != nil {
